@@ -198,6 +198,9 @@ fn date_strategy() -> BoxedStrategy<Val> {
         3 => select(vec![ymin, ymin + 1, -1, 0, 1, 63, 64, 1969, 1970, 2000, 2024, 9999, 10000, 16383, 16384, ymax - 1, ymax]),
         2 => 1900i32..2100,
         2 => ymin..=ymax,
+        // leap and century years on both sides of year 0 (ordinal 60 is 29 February exactly then)
+        2 => (-30i32..30, select(vec![0i32, 4, 96, 100, 104, 196, 200, 296, 300, 304, 396])).prop_map(|(c, r)| c * 400 + r),
+        1 => (-30i32..30, select(vec![0i32, 4, 96, 100, 104, 196, 200, 296, 300, 304, 396])).prop_map(|(c, r)| -(c * 400 + r)),
     ];
     (years, prop_oneof![2 => select(vec![1u32, 2, 59, 60, 61, 365, 366]), 3 => 1u32..=366]).prop_map(|(y, o)| {
         let d = chrono::NaiveDate::from_yo_opt(y, o).or_else(|| chrono::NaiveDate::from_yo_opt(y, 365)).unwrap();
@@ -281,9 +284,13 @@ fn bigint_bytes() -> BoxedStrategy<Vec<u8>> {
 }
 
 fn bigdecimal_strategy() -> BoxedStrategy<Val> {
-    (any::<i128>(), prop_oneof![2 => select(vec![0i64, 1, -1, 2, 10, 38, 39, -10]), 3 => -40i64..60], 0u8..4)
+    // scales far outside what fits 32 bits, up to the ends of i64 (the text form copes: 7E-9223372036854775807)
+    let far = select(vec![i32::MAX as i64, i32::MAX as i64 + 1, i32::MIN as i64, i32::MIN as i64 - 1, 1i64 << 40, -(1i64 << 40), i64::MAX, i64::MAX - 1, i64::MIN, i64::MIN + 1, i64::MIN + 2, i64::MIN + 3]);
+    (any::<i128>(), prop_oneof![4 => select(vec![0i64, 1, -1, 2, 10, 38, 39, -10]), 6 => -40i64..60, 1 => far], 0u8..5)
         .prop_map(|(digits, scale, small)| {
             let digits = match small {
+                // trailing zeros (what a normalising step would strip)
+                4 => (digits % 1000) * 100,
                 0 => digits % 1000,
                 1 => digits % 1_000_000_000_000,
                 _ => digits,
